@@ -27,10 +27,11 @@ import (
 // handler); the oracle reads the stamped event log, never the clock.
 
 type c17Op struct {
-	Kind   string `json:"kind"`   // pkt | partial | eof
-	Pieces int    `json:"pieces"` // pkt: number of reads the packet is spread over (0 = one per byte)
-	Bytes  int    `json:"bytes"`  // partial: how many bytes of a packet arrive before the stall
-	Hold   bool   `json:"hold"`   // pkt: the handler blocks until the harness releases it
+	Kind   string `json:"kind"`           // pkt | partial | eof
+	Pieces int    `json:"pieces"`         // pkt: number of reads the packet is spread over (0 = one per byte)
+	Bytes  int    `json:"bytes"`          // partial: how many bytes of a packet arrive before the stall
+	Hold   bool   `json:"hold"`           // pkt: the handler blocks until the harness releases it
+	Next   bool   `json:"next,omitempty"` // pkt: the handler registers a continuation, so the session is still open when the connection ends
 }
 
 type c17Conn struct {
@@ -67,6 +68,7 @@ func genC17(t *rapid.T) c17Case {
 			switch op.Kind {
 			case "pkt":
 				op.Pieces = rapid.SampledFrom([]int{1, 1, 2, 3, 0}).Draw(t, "pieces")
+				op.Next = rapid.IntRange(0, 2).Draw(t, "leaves_session_open") == 0
 			case "partial":
 				op.Bytes = rapid.IntRange(1, 19).Draw(t, "bytes")
 			}
@@ -103,6 +105,7 @@ type c17Handler struct {
 	log     *transport.Log
 	mu      sync.Mutex
 	hold    map[int]chan struct{} // conn id -> release channel for the next held packet
+	next    map[int]bool          // conn id -> the next packet's handler registers a continuation
 	entered chan int
 }
 
@@ -122,10 +125,15 @@ func (h *c17Handler) Handle(resp tq.Response, req tq.Request) {
 	h.mu.Lock()
 	ch := h.hold[id]
 	delete(h.hold, id)
+	next := h.next[id]
+	delete(h.next, id)
 	h.mu.Unlock()
 	if ch != nil {
 		h.entered <- id
 		<-ch
+	}
+	if next {
+		resp.Next(h)
 	}
 	_, _ = resp.Reply(rawED{[]byte{0, 0, 0, 0, 0, 0}})
 	h.log.Add(transport.EvHandlerOut, id, 0, nil, "")
@@ -142,7 +150,7 @@ func runC17(t failer, c c17Case) {
 	}
 	log := transport.NewLog()
 	ln := transport.NewListener(log)
-	h := &c17Handler{log: log, hold: map[int]chan struct{}{}, entered: make(chan int, 16)}
+	h := &c17Handler{log: log, hold: map[int]chan struct{}{}, next: map[int]bool{}, entered: make(chan int, 16)}
 	secret := []byte("k")
 	ctx, cancelCtx := context.WithCancel(context.Background())
 	cancelled := false
@@ -265,6 +273,12 @@ scripts:
 						}
 						chunks = append(chunks, wire[k:e])
 					}
+				}
+				if op.Next {
+					ev.Class("session-left-awaiting-continuation")
+					h.mu.Lock()
+					h.next[conn.ID] = true
+					h.mu.Unlock()
 				}
 				var release chan struct{}
 				if op.Hold {
